@@ -98,6 +98,12 @@ void sim_cache_mutate(struct sim *s, int flips)
 		flips = 0;
 		CNT("sim/event/cache_data_wiped");
 	}
+	if (flips == SIM_ADD_KEYS) {
+		for (int x = 0; x < s->u->nk; x += 2)
+			bs_set(&k, x);
+		flips = 0;
+		CNT("sim/event/cache_gets_router_keys");
+	}
 	for (int i = 0; i < flips; i++) {
 		if (s->u->nk && rndp(&s->rng, 1, 5)) {
 			int x = (int)rndn(&s->rng, (uint32_t)s->u->nk);
